@@ -2,7 +2,7 @@
 # usage: tools/confirm_seed.sh <PROP> <seed-id>  — confirms a sub-agent's seeded change in its scratch worktree /tmp/wt-<PROP>:
 #   1. the whole existing suite passes with the change (demo moved aside)   2. the demo fails with it   3. the demo passes without it
 # and stores patch + demo + meta.json under /verif/seeded/<seed-id>/. Removes nothing (the caller removes the worktree).
-prop="$1"; id="$2"; wt=/tmp/wt-$prop
+prop="$1"; id="$2"; wt="${3:-/tmp/wt-$prop}"
 out=/verif/seeded/$id; mkdir -p "$out"
 cd "$wt" || exit 2
 export CARGO_TARGET_DIR=$wt/target CARGO_NET_OFFLINE=true
@@ -10,9 +10,9 @@ demo_cmd=$(cat .seed/DEMO_CMD.txt | head -1)
 demos=$(git status --short | grep '^??' | awk '{print $2}' | grep -v '^.seed')
 # state: change applied?
 git diff --quiet && git apply .seed/patch.diff
-mkdir -p /tmp/seed-aside-$prop; for d in $demos; do mkdir -p /tmp/seed-aside-$prop/$(dirname $d); mv $d /tmp/seed-aside-$prop/$d; done
+mkdir -p /tmp/seed-aside-$id; for d in $demos; do mkdir -p /tmp/seed-aside-$id/$(dirname $d); mv $d /tmp/seed-aside-$id/$d; done
 suite=$(cargo nextest run --workspace --no-fail-fast --test-threads 8 --offline 2>&1 | grep -E "Summary|FAIL " | head -5)
-for d in $demos; do mv /tmp/seed-aside-$prop/$d $d; done
+for d in $demos; do mv /tmp/seed-aside-$id/$d $d; done
 with=$(bash -c "$demo_cmd" 2>&1 | grep -E "Summary|test result" | tail -2)
 git apply -R .seed/patch.diff
 without=$(bash -c "$demo_cmd" 2>&1 | grep -E "Summary|test result" | tail -2)
